@@ -110,7 +110,13 @@ def invoke(fn, names_, args, environment, pos):
     try:
         return fn.execute(args_, environment, pos)
     except CklRuntimeError as e:
-        e.stacktrace.append(getFuncallString(fn, args_) + " " + str(pos))
+        try:
+            entry = getFuncallString(fn, args_)
+        except CklRuntimeError:
+            # rendering an argument failed (e.g. a _str_ member that raises):
+            # the error in flight must not be replaced by that one
+            entry = f"{fn.name}(...)"
+        e.stacktrace.append(entry + " " + str(pos))
         raise
 
 
